@@ -481,6 +481,71 @@ def run(fx, chk, tier):
                     chk.require(not moved, "R5", key, "called with the stream at the end of the header just read", "the stream is moved between the header read and skip_box, which measures from the current position", site_of(fn, t.get("line")))
         chk.floor("R5", "skip_box calls in box-walk loops", nskip, 20)
     # ---------------- R6: the offsets the layouts shift (instances owned by C03 / C09)
+    # ---------------- R7: a child walk stops early only at a size no box can have
+    chk.rule("R7", "a child walk gives up on the size of a child only when that size is smaller than a box header (0 = the library's stop convention): an empty free/skip/unknown child (size 8) before the wanted child must be skipped like any other")
+    hs_c = fx.consts.get("mp4box::HEADER_SIZE")
+    HS = 8
+    nstop = 0
+    for fid in sorted(eng.clo):
+        fn = fx.fns[fid]
+        if fn.get("derived") or body_of(fn) is None:
+            continue
+        body, ls, walks = rescan.boxwalk_loops(fx, fid)
+        it = eng.res.interps.get(fid)
+        if not walks or it is None:
+            continue
+        for L in walks:
+            own = L.own_blocks(ls)
+            hs = [b for b, t in LP.calls_in(body, own) if rescan.is_header_read(t)]
+            if len(hs) != 1 or body.term(hs[0]).get("t") is None:
+                continue
+            H = hs[0]
+            # blocks of the iteration reached after the header read and before any child is consumed
+            stop_at = set()
+            for b, t in LP.calls_in(body, L.blocks):
+                p = callee_path(t["callee"]) or ""
+                tr = short(((fx.fns.get(p) or {}).get("impl") or {}).get("trait") or "")
+                if p.endswith("::skip_box") or tr.startswith("ReadBox<") or p.endswith("::skip_bytes_to") or p.endswith("::skip_bytes"):
+                    stop_at.add(b)
+            pre = (body.reachable_from(body.term(H)["t"], avoid=[L.head] + sorted(stop_at)) | {body.term(H)["t"]}) & L.blocks
+            for x in sorted(pre):
+                t = body.term(x)
+                if t["k"] != "switch":
+                    continue
+                st = it.out_states.get(x)
+                if st is None:
+                    continue
+                dl = op_place(t["discr"])
+                if dl is None or dl["p"]:
+                    continue
+                d = body.single_def(dl["l"])
+                ssid = None
+                direct = False
+                if d is not None and d[2] == "assign" and d[3]["k"] == "bin" and d[3].get("op") in ("Lt", "Le", "Gt", "Ge", "Eq", "Ne"):
+                    # a comparison of the child size with a constant
+                    sa = it.read_op(st, d[3]["a"], (x, "c"))
+                    sb_ = it.read_op(st, d[3]["b"], (x, "c"))
+                    for me, other in ((sa, sb_), (sb_, sa)):
+                        if me[0] is not None and any(r.endswith("BoxHeader::read") for r in me[3]) and other[1] is not None and other[1] == other[2] and not any(r.endswith("BoxHeader::read") for r in other[3]):
+                            ssid = me[0]
+                else:
+                    sd_ = it.read_op(st, t["discr"], (x, "c"))
+                    if sd_[0] is not None and any(r.endswith("BoxHeader::read") for r in sd_[3]) and "int" in str(t.get("dty", "")) or (t.get("dty") in ("u64", "u32")):
+                        ssid, direct = sd_[0], True
+                if ssid is None:
+                    continue
+                for succ, st2 in it.successors(st.copy(), x):
+                    if succ in L.blocks:
+                        continue
+                    lo, hi = it.iv(st2, ssid)
+                    nstop += 1
+                    key = "%s|stop|%s" % (fn_short(fid), "0" if (lo, hi) == (0, 0) else "%s..%s" % (lo, hi if hi is not None and hi < (1 << 62) else "max"))
+                    site_ = site_of(fn, t.get("line"))
+                    if hi is not None and hi < HS:
+                        chk.ok("R7", key, "the walk stops here only for child sizes %s..%s (no box is shorter than its %d-byte header)" % (lo, hi, HS), site_)
+                    else:
+                        chk.bad("R7", key, "the walk over the children stops at a child whose size is in %s..%s: a well-formed empty child (size %d: free, skip or an unknown box) placed before the wanted child ends the search, so the parse depends on the order of siblings" % (lo, hi, HS), site_)
+    chk.floor("R7", "size-based stops in child walks", nstop, 19)
     from packs_common import compose
     chk.rule("R6", "sample offsets move with the layout: the offset arithmetic of both lookups is dimension-, scope- and sign-correct, so media data before its header (negative run offset) or beyond 4 GiB resolves like any other layout (C03 / C09 R-UNITS instances)")
     compose(fx, chk, tier, "R6", "C03", ["R-UNITS"], floor=15, what="non-fragmented offset arithmetic obligations")
